@@ -252,6 +252,13 @@ impl TransformerContext {
                         "clip-path {clip_id} refers to itself"
                     )));
                 }
+                // a chain of clip paths clipping each other is followed recursively
+                if clip_chain.len() >= self.config.depth_limit as usize {
+                    return Err(SvgdxError::DepthLimitExceeded(
+                        clip_chain.len() as u32 + 1,
+                        self.config.depth_limit,
+                    ));
+                }
                 clip_chain.push(clip_id);
                 let clip_bbox = self.clipped_element_bbox(clip_el, clip_chain);
                 clip_chain.pop();
